@@ -176,10 +176,14 @@ Proof. rewrite seq_S. reflexivity. Qed.
 
 Ltac upd_cases :=
   repeat match goal with
-  | |- context [upd _ ?k _ ?x] =>
-      destruct (Nat.eq_dec x k); [subst; rewrite ?upd_same|rewrite ?(upd_other _ k _ x) by assumption]
-  | H : context [upd _ ?k _ ?x] |- _ =>
-      destruct (Nat.eq_dec x k); [subst; rewrite ?upd_same in H|rewrite ?(upd_other _ k _ x) in H by assumption]
+  | |- context [upd ?f ?k ?v ?x] =>
+      let e := fresh "e" in
+      destruct (Nat.eq_dec x k) as [e|];
+      [first [subst x|subst k|rewrite e in *]; rewrite !upd_same|rewrite !(upd_other f k v x) by assumption]
+  | H : context [upd ?f ?k ?v ?x] |- _ =>
+      let e := fresh "e" in
+      destruct (Nat.eq_dec x k) as [e|];
+      [first [subst x|subst k|rewrite e in *]; rewrite !upd_same in H|rewrite !(upd_other f k v x) in H by assumption]
   end.
 
 Ltac inv_some :=
@@ -440,7 +444,7 @@ Lemma Inv_accept s x0 (reg : bool) :
   Inv s ->
   ncalled (loop x0) (nh s) = 0 ->
   (forall e, loop x0 = LExited e -> lclosed x0 = true /\ reg = false) ->
-  (forall k, loop x0 <> LTrig k) -> (forall t, loop x0 <> LFresh t) ->
+  (forall k, loop x0 <> LTrig k) -> (reg = true -> forall t, loop x0 <> LFresh t) ->
   (alive x0 = true -> sink x0 = false -> cinc x0 = incn s (cpeer x0) /\ listening s (cpeer x0) = true) ->
   let s1 := set_nextc (set_conn s (nextc s) x0) (S (nextc s)) in
   Inv (if reg then set_table s1 (upd (table s1) (cpeer x0) (table s1 (cpeer x0) ++ [nextc s])) else s1).
@@ -463,7 +467,7 @@ Proof.
     all: destruct P as (x & P1 & P2 & P3 & P4); exists x; repeat split; auto.
     all: cbn; intros H; upd_cases; auto.
     all: apply in_app_or in H; destruct H as [H|[H|[]]]; auto.
-    all: subst c; subst s1; cbn in P1; rewrite upd_same in P1; inv_some; eapply Hf; eauto.
+    all: subst c; subst s1; cbn in P1; rewrite upd_same in P1; inv_some; eapply (Hf eq_refl); eauto.
 Qed.
 
 Lemma step_accept s p s' : Inv s -> step s (AAccept p) = Some s' -> Inv s'.
@@ -495,27 +499,27 @@ Lemma Inv_map_conns s s' (f : nat -> conn -> conn) :
   Inv s ->
   nh s' = nh s -> table s' = table s -> nextc s' = nextc s -> calls s' = calls s ->
   threads s' = threads s -> nextt s' = nextt s ->
-  conns s' = (fun c => match conns s c with Some x => Some (f c x) | None => None end) ->
+  (forall c, conns s' c = match conns s c with Some x => Some (f c x) | None => None end) ->
   (forall c x, cpeer (f c x) = cpeer x /\ loop (f c x) = loop x /\ (lclosed x = true -> lclosed (f c x) = true)) ->
   (forall c x, conns s c = Some x -> alive (f c x) = true -> sink (f c x) = false ->
                cinc (f c x) = incn s' (cpeer x) /\ listening s' (cpeer x) = true) ->
   Inv s'.
 Proof.
   intros [F TF T N E C G R V] Hn Ht Hnc Hca Hth Hnt Hc Hf Henv.
-  constructor; unfold expected_calls, pc_ok; rewrite ?Hn, ?Ht, ?Hnc, ?Hca, ?Hth, ?Hnt, ?Hc; auto.
-  - intros c H. now rewrite F.
-  - intros p c H. destruct (T p c H) as (y & Hy & Hp & Hl). rewrite Hy. exists (f c y).
+  constructor; unfold expected_calls, pc_ok; rewrite ?Hn, ?Ht, ?Hnc, ?Hca, ?Hth, ?Hnt; auto.
+  - intros c H. rewrite Hc. now rewrite F.
+  - intros p c H. destruct (T p c H) as (y & Hy & Hp & Hl). rewrite Hc, Hy. exists (f c y).
     destruct (Hf c y) as (A & B & _). rewrite A, B. auto.
-  - intros c x e H Hl. destruct (conns s c) as [y|] eqn:Hy; inv_some.
-    destruct (Hf c y) as (A & B & D). apply D. eapply E; eauto. congruence.
-  - intros c. rewrite C. unfold expected_calls. destruct (conns s c) as [y|]; auto.
+  - intros c x e H Hl. rewrite Hc in H. destruct (conns s c) as [y|] eqn:Hy; inv_some.
+    destruct (Hf c y) as (A & B & D). apply D. apply (E c y e); auto. congruence.
+  - intros c. rewrite C, Hc. unfold expected_calls. destruct (conns s c) as [y|]; auto.
     destruct (Hf c y) as (A & B & _). now rewrite A, B.
-  - intros c x k H Hl. destruct (conns s c) as [y|] eqn:Hy; inv_some.
-    destruct (Hf c y) as (A & B & D). eapply G; eauto. congruence.
+  - intros c x k H Hl. rewrite Hc in H. destruct (conns s c) as [y|] eqn:Hy; inv_some.
+    destruct (Hf c y) as (A & B & D). apply (G c y k); auto. congruence.
   - intros t th H. specialize (R t th H). unfold pc_ok in R. destruct (tpc th); auto.
-    all: destruct R as (x & R1 & R2 & R3); rewrite R1; exists (f c x).
+    all: destruct R as (x & R1 & R2 & R3); rewrite Hc, R1; exists (f c x).
     all: destruct (Hf c x) as (A & B & _); rewrite A, B; auto.
-  - intros c x H Hal Hsk. destruct (conns s c) as [y|] eqn:Hy; inv_some.
+  - intros c x H Hal Hsk. rewrite Hc in H. destruct (conns s c) as [y|] eqn:Hy; inv_some.
     destruct (Hf c y) as (A & _). rewrite A. now apply Henv.
 Qed.
 
@@ -524,10 +528,992 @@ Proof.
   intros I H. cbv beta iota zeta delta [step] in H. inv_some.
   eapply (Inv_map_conns s _ (fun _ x => if (cpeer x =? p) && negb (sink x) then set_alive x false else x));
     eauto; try reflexivity.
-  - cbn. apply FunctionalExtensionality_free.
   - intros c x. destruct ((cpeer x =? p) && negb (sink x)); cbn; auto.
   - cbn. intros c x Hx Hal Hsk.
     destruct ((cpeer x =? p) && negb (sink x)) eqn:Hb; cbn in *; [discriminate|].
     destruct (i_env _ I _ _ Hx Hal Hsk) as [A B]. split; auto.
     upd_cases; auto. rewrite Nat.eqb_refl, Hsk in Hb. discriminate.
 Qed.
+
+Lemma step_restart s p s' : Inv s -> step s (ARestart p) = Some s' -> Inv s'.
+Proof.
+  intros I H. cbv beta iota zeta delta [step] in H.
+  destruct (listening s p) eqn:Hl; [discriminate|]. inv_some.
+  eapply (Inv_map_conns s _ (fun _ x => x)); eauto; try reflexivity.
+  - intros c. cbn. destruct (conns s c); auto.
+  - cbn. intros c x Hx Hal Hsk. destruct (i_env _ I _ _ Hx Hal Hsk) as [A B].
+    upd_cases; auto; congruence.
+Qed.
+
+Lemma step_close s s' : Inv s -> step s AClose = Some s' -> Inv s'.
+Proof.
+  intros I H. cbv beta iota zeta delta [step] in H. inv_some.
+  eapply (Inv_map_conns s _ (fun c x => if mem c (table s (cpeer x)) then set_lclosed x true else x));
+    eauto; try reflexivity.
+  - intros c x. destruct (mem c (table s (cpeer x))); cbn; auto.
+  - cbn. intros c x Hx Hal Hsk.
+    destruct (mem c (table s (cpeer x))); cbn in *; apply (i_env _ I _ _ Hx Hal Hsk).
+Qed.
+
+Lemma step_spawn s p msgs s' : Inv s -> step s (ASpawn p msgs) = Some s' -> Inv s'.
+Proof.
+  intros I H. cbv beta iota zeta delta [step] in H. inv_some.
+  eapply Inv_upd_threads; eauto; try reflexivity; cbn.
+  - intros t Ht. upd_cases; [lia|]. apply (i_tfresh _ I). lia.
+  - intros t th Ht. upd_cases.
+    + inv_some. unfold pc_ok. cbn. destruct msgs; exact Logic.I.
+    + apply (i_thr _ I _ _ Ht).
+Qed.
+
+(* ---- Send threads --------------------------------------------------------------------- *)
+
+Lemma conn_send_frame s c m o s' ok :
+  conn_send s c m o = (s', ok) ->
+  tcp s' = tcp s /\ closed s' = closed s /\ nh s' = nh s /\ table s' = table s /\ conns s' = conns s /\
+  nextc s' = nextc s /\ listening s' = listening s /\ incn s' = incn s /\ calls s' = calls s /\
+  threads s' = threads s /\ nextt s' = nextt s /\ dispatched s' = dispatched s.
+Proof.
+  unfold conn_send. intros H.
+  destruct (conns s c) as [x|]; [|inversion H; subst; repeat split; reflexivity].
+  destruct (lclosed x); [inversion H; subst; repeat split; reflexivity|].
+  destruct (alive x).
+  - destruct (sink x); inversion H; subst; repeat split; reflexivity.
+  - destruct (tcp s && o); inversion H; subst; repeat split; reflexivity.
+Qed.
+
+Lemma Inv_conn_send s c m o s' ok : conn_send s c m o = (s', ok) -> Inv s -> Inv s'.
+Proof.
+  intros H I. destruct (conn_send_frame _ _ _ _ _ _ H) as (_&_&A&B&C&D&E&F&G&Ht&Hn&_).
+  eapply Inv_upd_threads; eauto.
+  - rewrite Hn, Ht. apply (i_tfresh _ I).
+  - rewrite Ht. apply (i_thr _ I).
+Qed.
+
+Lemma thread_lt s t th : Inv s -> threads s t = Some th -> t < nextt s.
+Proof.
+  intros I H. destruct (le_lt_dec (nextt s) t) as [L|L]; auto.
+  rewrite (i_tfresh _ I) in H by assumption. discriminate.
+Qed.
+
+Lemma Inv_set_thread s t th' : Inv s -> t < nextt s -> pc_ok s t th' -> Inv (set_thread s t th').
+Proof.
+  intros I L P. eapply Inv_upd_threads; eauto; try reflexivity; cbn.
+  - intros t0 H. upd_cases; [lia|]. now apply (i_tfresh _ I).
+  - intros t0 th0 H. upd_cases; [inv_some; auto|]. now apply (i_thr _ I).
+Qed.
+
+Lemma pc_ok_true s t th : (forall c o, tpc th <> PIdent c o /\ tpc th <> PReg c o /\ tpc th <> PLaunch c o) -> pc_ok s t th.
+Proof.
+  unfold pc_ok. intros H. destruct (tpc th) eqn:E; auto.
+  all: destruct (H c outer) as (A & B & C); congruence.
+Qed.
+
+Ltac pc_triv := apply pc_ok_true; cbn; intros; repeat split; discriminate.
+
+Lemma step_thread s t o s' : Inv s -> thread_step s t o = Some s' -> Inv s'.
+Proof.
+  intros I H. unfold thread_step in H.
+  destruct (threads s t) as [th|] eqn:Hth; [|discriminate].
+  pose proof (thread_lt _ _ _ I Hth) as L.
+  pose proof (i_thr _ I _ _ Hth) as P. unfold pc_ok in P.
+  destruct (tpc th) eqn:Hpc.
+  - (* PLookup *) destruct (table s (tpeer th)); inv_some; apply Inv_set_thread; auto; pc_triv.
+  - (* PDial *)
+    destruct (listening s (tpeer th)) eqn:Hl.
+    + unfold new_conn in H. inv_some.
+      pose proof (Inv_accept s (mkConn (tpeer th) (incn s (tpeer th)) true false false (LFresh t)) false I) as A.
+      cbn in A. assert (I1 : Inv (set_nextc (set_conn s (nextc s) (mkConn (tpeer th) (incn s (tpeer th)) true false false (LFresh t))) (S (nextc s)))).
+      { apply A; auto; intros; discriminate. }
+      apply Inv_set_thread; auto. unfold pc_ok. cbn. eexists. rewrite upd_same. repeat split; eauto.
+      intros Hin. destruct (i_tabc _ I _ _ Hin) as (y & Hy & _). rewrite (i_fresh _ I) in Hy by lia. discriminate.
+    + inv_some. apply Inv_set_thread; auto; pc_triv.
+  - (* PIdent *)
+    destruct (ident_send s c o); inv_some; apply Inv_set_thread; auto; try pc_triv;
+      try (unfold pc_ok; cbn; exact P).
+  - (* PReg *)
+    destruct P as (x & Hx & Hlx & Hpx & Hni).
+    destruct (closed s); inv_some; [apply Inv_set_thread; auto; pc_triv|].
+    eapply (Inv_tab_append s _ (tpeer th) c x); eauto; try reflexivity.
+    + intros e He. rewrite Hlx in He. discriminate.
+    + cbn. intros t0 H0. upd_cases; [lia|]. now apply (i_tfresh _ I).
+    + cbn. intros t0 th0 H0. upd_cases.
+      * inv_some. unfold pc_ok. cbn. exists x. auto.
+      * pose proof (i_thr _ I _ _ H0) as P0. unfold pc_ok in *. cbn. destruct (tpc th0); auto.
+        all: destruct P0 as (y & Y1 & Y2 & Y3 & Y4); exists y; repeat split; auto.
+        all: intros Hin; upd_cases; auto.
+        all: apply in_app_or in Hin; destruct Hin as [Hin|[Hin|[]]]; auto.
+        all: subst; rewrite Hx in Y1; inv_some; congruence.
+  - (* PLaunch *)
+    destruct P as (x & Hx & Hlx & Hpx).
+    destruct (closed s); inv_some; [apply Inv_set_thread; auto; pc_triv|].
+    rewrite Hx, Hlx, Nat.eqb_refl in H. inv_some.
+    eapply (Inv_upd_conn s _ c x (set_loop x LRun)); eauto; cbn; try reflexivity; try congruence;
+      try solve [rewrite Hlx; reflexivity]; try solve [intros; discriminate].
+    + intros t0 H0. upd_cases; [lia|]. now apply (i_tfresh _ I).
+    + intros t0 th0 H0. upd_cases.
+      * inv_some. destruct outer; pc_triv.
+      * eapply pc_ok_upd_conn; [apply (i_thr _ I _ _ H0)|reflexivity|reflexivity|].
+        intros x0 Hx0 Hf. rewrite Hx in Hx0. inv_some. congruence.
+  - (* PMsg *)
+    destruct (tmsgs th) as [|m rest]; inv_some; [apply Inv_set_thread; auto; pc_triv|].
+    destruct (conn_send s c m o) as [s1 ok] eqn:Hs.
+    pose proof (Inv_conn_send _ _ _ _ _ _ Hs I) as I1.
+    destruct (conn_send_frame _ _ _ _ _ _ Hs) as (_&_&_&_&_&_&_&_&_&_&Hn&_).
+    destruct ok; inv_some; apply Inv_set_thread; auto; try lia; try pc_triv.
+    destruct rest; pc_triv.
+  - (* PRetry *)
+    destruct (tmsgs th) as [|m rest]; inv_some; [apply Inv_set_thread; auto; pc_triv|].
+    destruct (conn_send s c' m o) as [s1 ok] eqn:Hs.
+    pose proof (Inv_conn_send _ _ _ _ _ _ Hs I) as I1.
+    destruct (conn_send_frame _ _ _ _ _ _ Hs) as (_&_&_&_&_&_&_&_&_&_&Hn&_).
+    destruct ok; inv_some; apply Inv_set_thread; auto; try lia; try pc_triv.
+    destruct rest; pc_triv.
+  - discriminate.
+Qed.
+
+Theorem step_inv s a s' : Inv s -> step s a = Some s' -> Inv s'.
+Proof.
+  destruct a; intros I H.
+  - eapply step_spawn; eauto.
+  - eapply step_thread; eauto.
+  - eapply step_recverr; eauto.
+  - eapply step_recvmsg; eauto.
+  - eapply step_trigger; eauto.
+  - eapply step_exit; eauto.
+  - eapply step_accept; eauto.
+  - eapply step_acceptfail; eauto.
+  - eapply step_acceptclosing; eauto.
+  - eapply step_launchinc; eauto.
+  - eapply step_crash; eauto.
+  - eapply step_restart; eauto.
+  - eapply step_close; eauto.
+Qed.
+
+Theorem run_inv acts : forall s s', Inv s -> run s acts = Some s' -> Inv s'.
+Proof.
+  induction acts as [|a r IH]; cbn; intros s s' I H.
+  - now inv_some.
+  - destruct (step s a) as [s1|] eqn:E; [|discriminate]. apply (IH s1 s'); auto. eapply step_inv; eauto.
+Qed.
+
+Corollary reachable_inv b n acts s : run (init b n) acts = Some s -> Inv s.
+Proof. apply run_inv, Inv_init. Qed.
+
+(* ---- the table is clean: exits, notifications ------------------------------------------ *)
+
+Lemma filter_calls_seq h p c a n :
+  filter (fun y : nat * nat * nat => fst (fst y) =? h) (map (fun k => (k, p, c)) (seq a n)) =
+  if (a <=? h) && (h <? a + n) then [(h, p, c)] else [].
+Proof.
+  revert a; induction n as [|n IH]; intros a; cbn [seq map filter fst].
+  - destruct (Nat.leb_spec a h), (Nat.ltb_spec h (a + 0)); cbn; auto; lia.
+  - rewrite IH.
+    destruct (Nat.eqb_spec a h), (Nat.leb_spec (S a) h), (Nat.ltb_spec h (S a + n)),
+      (Nat.leb_spec a h), (Nat.ltb_spec h (a + S n)); cbn; try lia; auto.
+    subst; reflexivity.
+Qed.
+
+(* when a receive loop has exited, its connection is out of the table and closed, and --
+   if it left because of an error -- every registered handler was called exactly once,
+   in order, with the peer of that connection; a loop that left because the router
+   closed called nobody *)
+Theorem table_clean b n acts s c x err :
+  run (init b n) acts = Some s -> conns s c = Some x -> loop x = LExited err ->
+  ~ In c (table s (cpeer x)) /\ lclosed x = true /\
+  calls_of c (calls s) = (if err then map (fun k => (k, cpeer x, c)) (seq 0 (nh s)) else []).
+Proof.
+  intros R Hx Hl. pose proof (reachable_inv _ _ _ _ R) as I. repeat split.
+  - intros H. destruct (i_tabc _ I _ _ H) as (y & Hy & _ & Hn). rewrite Hx in Hy. inv_some.
+    eapply Hn; eauto.
+  - eapply (i_exitc _ I); eauto.
+  - rewrite (i_calls _ I). unfold expected_calls. rewrite Hx, Hl. destruct err; reflexivity.
+Qed.
+
+Corollary handlers_exactly_once b n acts s c x h :
+  run (init b n) acts = Some s -> conns s c = Some x -> loop x = LExited true -> h < nh s ->
+  filter (fun y => fst (fst y) =? h) (calls_of c (calls s)) = [(h, cpeer x, c)].
+Proof.
+  intros R Hx Hl Hh. destruct (table_clean _ _ _ _ _ _ _ R Hx Hl) as (_ & _ & ->).
+  rewrite filter_calls_seq. cbn [Nat.leb andb Nat.add].
+  replace (h <? nh s) with true by (symmetry; apply Nat.ltb_lt; lia). reflexivity.
+Qed.
+
+(* every table entry is a connection under that peer whose loop has not exited *)
+Theorem table_live b n acts s p c :
+  run (init b n) acts = Some s -> In c (table s p) ->
+  exists x, conns s c = Some x /\ cpeer x = p /\ forall e, loop x <> LExited e.
+Proof. intros R. apply (i_tabc _ (reachable_inv _ _ _ _ R)). Qed.
+
+(* no handler is ever told a peer other than the one of the connection that failed, and
+   the number of calls of a connection never exceeds the number of handlers *)
+Theorem calls_name_the_peer b n acts s h p c :
+  run (init b n) acts = Some s -> In (h, p, c) (calls s) ->
+  exists x, conns s c = Some x /\ cpeer x = p /\ h < nh s.
+Proof.
+  intros R H. pose proof (reachable_inv _ _ _ _ R) as I.
+  assert (H' : In (h, p, c) (calls_of c (calls s))).
+  { unfold calls_of. apply filter_In. split; auto. cbn. apply Nat.eqb_refl. }
+  rewrite (i_calls _ I) in H'. unfold expected_calls in H'.
+  destruct (conns s c) as [x|] eqn:Hx; [|destruct H'].
+  apply in_map_iff in H'. destruct H' as (k & E & Hk). inversion E; subst.
+  exists x. repeat split; auto. apply in_seq in Hk.
+  destruct (loop x) eqn:Hl; cbn in Hk; try lia.
+  - pose proof (i_trig _ I _ _ _ Hx Hl). lia.
+  - destruct err; cbn in Hk; lia.
+Qed.
+
+(* ---- stale entries can always be cleaned: the loop's own steps suffice ------------------- *)
+
+Lemma run_app s a1 a2 s1 : run s a1 = Some s1 -> run s (a1 ++ a2) = run s1 a2.
+Proof.
+  revert s; induction a1 as [|a r IH]; cbn; intros s H; [now inv_some|].
+  destruct (step s a); [|discriminate]. now apply IH.
+Qed.
+
+Lemma triggers s c x j k :
+  conns s c = Some x -> loop x = LTrig j -> j + k = nh s ->
+  exists s' x', run s (repeat (ATrigger c) k) = Some s' /\ conns s' c = Some x' /\
+                loop x' = LTrig (nh s) /\ cpeer x' = cpeer x /\ table s' = table s /\ nh s' = nh s /\
+                closed s' = closed s /\ listening s' = listening s.
+Proof.
+  revert s x j; induction k as [|k IH]; intros s x j Hx Hl Hk.
+  - exists s, x. cbn. replace (nh s) with j by lia. repeat split; auto.
+  - cbn [repeat run]. cbv beta iota zeta delta [step]. rewrite Hx, Hl.
+    replace (j <? nh s) with true by (symmetry; apply Nat.ltb_lt; lia).
+    edestruct (IH (set_calls (set_conn s c (set_loop x (LTrig (S j)))) (calls s ++ [(j, cpeer x, c)]))
+                 (set_loop x (LTrig (S j))) (S j)) as (s' & x' & A & B & C & D & E & F & G & H).
+    + cbn. now rewrite upd_same.
+    + reflexivity.
+    + cbn. lia.
+    + exists s', x'. cbn in *. repeat split; auto.
+Qed.
+
+Theorem stale_entry_can_leave b n acts s p c x :
+  run (init b n) acts = Some s -> In c (table s p) -> conns s c = Some x -> loop x = LRun ->
+  exists s',
+    run s (ARecvErr c EClosed :: repeat (ATrigger c) (if closed s then 0 else nh s) ++ [AExit c]) = Some s' /\
+    ~ In c (table s' p) /\ (forall q, q <> p -> table s' q = table s q) /\
+    listening s' = listening s /\ closed s' = closed s.
+Proof.
+  intros R Hin Hx Hl. pose proof (reachable_inv _ _ _ _ R) as I.
+  destruct (i_tabc _ I _ _ Hin) as (y & Hy & Hp & _). rewrite Hx in Hy. inv_some.
+  cbn [run]. cbv beta iota zeta delta [step]. rewrite Hx, Hl.
+  destruct (closed s) eqn:Hc.
+  - (* closed: straight to the deferred part *)
+    cbn [classify repeat app run]. cbv beta iota zeta delta [step]. cbn. rewrite upd_same. cbn.
+    eexists. split; [reflexivity|]. cbn. rewrite upd_same. repeat split; auto.
+    + apply swap_remove_notin. apply (i_nodup _ I).
+    + intros q Hq. now rewrite upd_other.
+  - cbn [classify].
+    set (s1 := set_conn s c (set_loop y (LTrig 0))).
+    assert (I1 : Inv s1).
+    { eapply (step_recverr s c EClosed); eauto. cbv beta iota zeta delta [step]. now rewrite Hx, Hl, Hc. }
+    destruct (triggers s1 c (set_loop y (LTrig 0)) 0 (nh s)) as (s2 & x2 & A & B & C & D & E & F & G & H); auto.
+    { subst s1. cbn. now rewrite upd_same. }
+    rewrite (run_app _ _ _ _ A). cbn [run]. cbv beta iota zeta delta [step]. rewrite B, C.
+    change (nh s1) with (nh s) in *. rewrite F, Nat.leb_refl.
+    eexists. split; [reflexivity|]. cbn. rewrite E, D. subst s1. cbn. rewrite upd_same.
+    assert (I2 : Inv s2) by (eapply run_inv; eauto).
+    repeat split; auto.
+    + apply swap_remove_notin. apply (i_nodup _ I).
+    + intros q Hq. now rewrite upd_other.
+    + rewrite G. cbn. exact Hc.
+Qed.
+
+(* ---- a Send never blocks and returns within a bound of its own steps ---------------------- *)
+
+Definition is_done (p : pc) : bool := match p with PDone _ => true | _ => false end.
+
+Theorem send_never_blocks s t th o :
+  Inv s -> threads s t = Some th -> is_done (tpc th) = false -> exists s', thread_step s t o = Some s'.
+Proof.
+  intros I Hth Hd. unfold thread_step. rewrite Hth.
+  pose proof (i_thr _ I _ _ Hth) as P. unfold pc_ok in P.
+  destruct (tpc th) eqn:Hpc; try discriminate.
+  - destruct (table s (tpeer th)); eauto.
+  - destruct (listening s (tpeer th)); [unfold new_conn|]; eauto.
+  - destruct (ident_send s c o); eauto.
+  - destruct (closed s); eauto.
+  - destruct P as (x & Hx & Hl & _). destruct (closed s); eauto.
+    rewrite Hx, Hl, Nat.eqb_refl. eauto.
+  - destruct (tmsgs th); eauto. destruct (conn_send s c n o) as [s1 ok]. destruct ok; eauto.
+  - destruct (tmsgs th); eauto. destruct (conn_send s c' n o) as [s1 ok]. destruct ok; eauto.
+Qed.
+
+Definition mu (th : thread) : nat :=
+  let l := 6 * length (tmsgs th) in
+  match tpc th with
+  | PDone _ => 0
+  | PLookup => l + 11
+  | PDial None => l + 10
+  | PIdent _ None => l + 9
+  | PReg _ None => l + 8
+  | PLaunch _ None => l + 7
+  | PMsg _ => l + 6
+  | PDial (Some _) => l + 5
+  | PIdent _ (Some _) => l + 4
+  | PReg _ (Some _) => l + 3
+  | PLaunch _ (Some _) => l + 2
+  | PRetry _ _ => l + 1
+  end.
+
+Lemma step_decreases s t th o s' :
+  threads s t = Some th -> thread_step s t o = Some s' ->
+  exists th', threads s' t = Some th' /\ mu th' < mu th.
+Proof.
+  intros Hth H. unfold thread_step in H. rewrite Hth in H.
+  assert (G : forall s0 q, threads (set_thread s0 t (set_pc th q)) t = Some (set_pc th q)).
+  { intros. cbn. now rewrite upd_same. }
+  destruct (tpc th) eqn:Hpc; try discriminate.
+  - destruct (table s (tpeer th)); inv_some; eexists; (split; [apply G|]); unfold mu; cbn; rewrite Hpc; lia.
+  - destruct (listening s (tpeer th)); [unfold new_conn in H|]; inv_some; eexists; (split; [apply G|]);
+      unfold mu; cbn; rewrite Hpc; destruct outer; lia.
+  - destruct (ident_send s c o); inv_some; eexists; (split; [apply G|]); unfold mu; cbn; rewrite Hpc; destruct outer; lia.
+  - destruct (closed s); inv_some; eexists; (split; [apply G|]); unfold mu; cbn; rewrite Hpc; destruct outer; lia.
+  - destruct (closed s); inv_some; [eexists; (split; [apply G|]); unfold mu; cbn; rewrite Hpc; destruct outer; lia|].
+    destruct (conns s c) as [x|]; [|discriminate]. destruct (loop x); try discriminate.
+    destruct (t0 =? t); inv_some. eexists; (split; [apply G|]). unfold mu; cbn; rewrite Hpc; destruct outer; lia.
+  - destruct (tmsgs th) as [|m rest] eqn:Hm; inv_some.
+    + eexists; (split; [apply G|]); unfold mu; cbn; rewrite Hpc; lia.
+    + destruct (conn_send s c m o) as [s1 ok]. destruct ok; inv_some.
+      * eexists. split; [cbn; now rewrite upd_same|]. unfold mu. cbn. rewrite Hpc, Hm. cbn. destruct rest; cbn; lia.
+      * eexists; (split; [apply G|]); unfold mu; cbn; rewrite Hpc; lia.
+  - destruct (tmsgs th) as [|m rest] eqn:Hm; inv_some.
+    + eexists; (split; [apply G|]); unfold mu; cbn; rewrite Hpc; lia.
+    + destruct (conn_send s c' m o) as [s1 ok]. destruct ok; inv_some.
+      * eexists. split; [cbn; now rewrite upd_same|]. unfold mu. cbn. rewrite Hpc, Hm. cbn. destruct rest; cbn; lia.
+      * eexists; (split; [apply G|]); unfold mu; cbn; rewrite Hpc; lia.
+Qed.
+
+Lemma mu_zero th : mu th = 0 -> is_done (tpc th) = true.
+Proof. unfold mu. destruct (tpc th) as [|[]|? []|? []|? []| | |]; cbn; intros; auto; lia. Qed.
+
+Theorem send_returns fuel : forall s t th o,
+  Inv s -> threads s t = Some th -> mu th <= fuel ->
+  exists r, result (run_thread fuel s t o) t = Some r /\ Inv (run_thread fuel s t o).
+Proof.
+  induction fuel as [|f IH]; intros s t th o I Hth Hm.
+  - assert (D : is_done (tpc th) = true) by (apply mu_zero; lia).
+    cbn. unfold result. rewrite Hth. destruct (tpc th); try discriminate. eauto.
+  - cbn [run_thread]. destruct (is_done (tpc th)) eqn:D.
+    + unfold thread_step. rewrite Hth. destruct (tpc th) eqn:E; try discriminate.
+      unfold result. rewrite Hth, E. eauto.
+    + destruct (send_never_blocks s t th o I Hth D) as (s' & Hs). rewrite Hs.
+      destruct (step_decreases _ _ _ _ _ Hth Hs) as (th' & Hth' & Hlt).
+      apply (IH s' t th' o); auto; [eapply step_thread; eauto|lia].
+Qed.
+
+(* Router.Send as one call, from any reachable state, whatever the peers did and whatever
+   the kernel does with writes to dead peers: it returns *)
+Theorem send_call_returns b n acts s p msgs o :
+  run (init b n) acts = Some s -> exists r, snd (send_call s p msgs o) = Some r.
+Proof.
+  intros R. pose proof (reachable_inv _ _ _ _ R) as I.
+  unfold send_call. cbv beta iota zeta delta [step].
+  set (th := mkThread p msgs (match msgs with [] => PDone RErr | _ => PLookup end)).
+  set (s1 := set_threads s (upd (threads s) (nextt s) (Some th)) (S (nextt s))).
+  assert (I1 : Inv s1) by (eapply (step_spawn s p msgs); eauto).
+  destruct (send_returns (send_fuel msgs) s1 (nextt s) th o I1) as (r & Hr & _).
+  - subst s1. cbn. now rewrite upd_same.
+  - unfold mu, send_fuel, th. cbn. destruct msgs; cbn; lia.
+  - exists r. cbn. exact Hr.
+Qed.
+
+(* ---- what a Send thread leaves alone ---------------------------------------------------- *)
+
+Definition same_conn (x x' : conn) : Prop :=
+  cpeer x' = cpeer x /\ cinc x' = cinc x /\ sink x' = sink x /\ alive x' = alive x /\ lclosed x' = lclosed x.
+
+Lemma same_conn_refl x : same_conn x x.
+Proof. repeat split. Qed.
+
+Lemma thread_step_frame s t o s' :
+  Inv s -> thread_step s t o = Some s' ->
+  closed s' = closed s /\ listening s' = listening s /\ incn s' = incn s /\ tcp s' = tcp s /\ nh s' = nh s /\
+  calls s' = calls s /\
+  (forall c x, conns s c = Some x -> exists x', conns s' c = Some x' /\ same_conn x x') /\
+  (forall q c, In c (table s q) -> In c (table s' q)) /\
+  (forall t0, t0 <> t -> threads s' t0 = threads s t0).
+Proof.
+  intros I H. unfold thread_step in H.
+  destruct (threads s t) as [th|] eqn:Hth; [|discriminate].
+  assert (K : forall s0 th0, (forall t0, t0 <> t -> threads (set_thread s0 t th0) t0 = threads s0 t0)).
+  { intros s0 th0 t0 Ht. cbn. now rewrite upd_other. }
+  assert (Same : forall c x, conns s c = Some x -> exists x', conns s c = Some x' /\ same_conn x x').
+  { intros c x Hx. exists x. split; auto. apply same_conn_refl. }
+  destruct (tpc th) eqn:Hpc; try discriminate.
+  - destruct (table s (tpeer th)); inv_some; cbn; repeat split; auto; intros; now rewrite upd_other.
+  - destruct (listening s (tpeer th)); [unfold new_conn in H|]; inv_some; cbn; repeat split; auto;
+      try (intros; now rewrite upd_other).
+    intros c x Hx. assert (c <> nextc s).
+    { intros ->. rewrite (i_fresh _ I) in Hx by lia. discriminate. }
+    rewrite upd_other by auto. apply Same; auto.
+  - destruct (ident_send s c o); inv_some; cbn; repeat split; auto; intros; now rewrite upd_other.
+  - destruct (closed s) eqn:Hcl; inv_some; cbn; repeat split; auto; try (intros; now rewrite upd_other).
+    intros q c0 Hin. upd_cases; auto. apply in_or_app. auto.
+  - destruct (closed s) eqn:Hcl; inv_some; [cbn; repeat split; auto; intros; now rewrite upd_other|].
+    destruct (conns s c) as [x|] eqn:Hx; [|discriminate]. destruct (loop x); try discriminate.
+    destruct (t0 =? t); inv_some. cbn. repeat split; auto; try (intros; now rewrite upd_other).
+    intros c0 x0 Hx0. upd_cases.
+    + rewrite Hx in Hx0. inv_some. eexists. split; [reflexivity|]. repeat split.
+    + apply Same; auto.
+  - destruct (tmsgs th) as [|m rest]; inv_some; [cbn; repeat split; auto; intros; now rewrite upd_other|].
+    destruct (conn_send s c m o) as [s1 ok] eqn:Hs.
+    destruct (conn_send_frame _ _ _ _ _ _ Hs) as (A1&A2&A3&A4&A5&A6&A7&A8&A9&A10&A11&A12).
+    destruct ok; inv_some; cbn; rewrite ?A1, ?A2, ?A3, ?A4, ?A5, ?A6, ?A7, ?A8, ?A9, ?A10; repeat split; auto;
+      intros; now rewrite upd_other.
+  - destruct (tmsgs th) as [|m rest]; inv_some; [cbn; repeat split; auto; intros; now rewrite upd_other|].
+    destruct (conn_send s c' m o) as [s1 ok] eqn:Hs.
+    destruct (conn_send_frame _ _ _ _ _ _ Hs) as (A1&A2&A3&A4&A5&A6&A7&A8&A9&A10&A11&A12).
+    destruct ok; inv_some; cbn; rewrite ?A1, ?A2, ?A3, ?A4, ?A5, ?A6, ?A7, ?A8, ?A9, ?A10; repeat split; auto;
+      intros; now rewrite upd_other.
+Qed.
+
+(* ---- after the peer is back: a Send run alone reconnects and delivers ----------------------- *)
+
+Section Resend.
+Variables (t p : nat) (o : bool) (d0 : list (nat * nat)) (msgs0 : list nat).
+
+Definition to_current (s : state) (c : nat) : Prop :=
+  exists x, conns s c = Some x /\ cpeer x = p /\ cinc x = incn s p /\ sink x = false.
+
+Definition usable (s : state) (c : nat) : Prop :=
+  exists x, conns s c = Some x /\ cpeer x = p /\ alive x = true /\ lclosed x = false /\ sink x = false.
+
+Definition known (s : state) (c : nat) : Prop :=
+  exists x, conns s c = Some x /\ cpeer x = p /\ sink x = false.
+
+Definition ext (s s' : state) : Prop :=
+  incn s' = incn s /\ forall c x, conns s c = Some x -> exists x', conns s' c = Some x' /\ same_conn x x'.
+
+Lemma known_ext s s' c : ext s s' -> known s c -> known s' c.
+Proof.
+  intros [_ E] (x & Hx & A & B). destruct (E _ _ Hx) as (x' & Hx' & S1 & S2 & S3 & S4 & S5).
+  exists x'. repeat split; congruence.
+Qed.
+
+Lemma usable_ext s s' c : ext s s' -> usable s c -> usable s' c.
+Proof.
+  intros [_ E] (x & Hx & A & B & C & D). destruct (E _ _ Hx) as (x' & Hx' & S1 & S2 & S3 & S4 & S5).
+  exists x'. repeat split; congruence.
+Qed.
+
+Lemma to_current_ext s s' c : ext s s' -> to_current s c -> to_current s' c.
+Proof.
+  intros [Hi E] (x & Hx & A & B & C). destruct (E _ _ Hx) as (x' & Hx' & S1 & S2 & S3 & S4 & S5).
+  exists x'. rewrite Hi. repeat split; congruence.
+Qed.
+
+Lemma usable_known s c : usable s c -> known s c.
+Proof. intros (x & Hx & A & B & C & D). exists x. auto. Qed.
+
+Definition pcJ (s : state) (th : thread) : Prop :=
+  match tpc th with
+  | PLookup => tmsgs th <> []
+  | PDial None => tmsgs th <> []
+  | PDial (Some c0) => tmsgs th <> [] /\ known s c0
+  | PIdent c None | PReg c None | PLaunch c None => tmsgs th <> [] /\ usable s c
+  | PIdent c (Some c0) | PReg c (Some c0) | PLaunch c (Some c0) => tmsgs th <> [] /\ usable s c /\ known s c0
+  | PMsg c => tmsgs th <> [] /\ known s c
+  | PRetry c c0 => tmsgs th <> [] /\ usable s c /\ known s c0
+  | PDone r => r = ROk /\ tmsgs th = []
+  end.
+
+Record J (s : state) : Prop := {
+  j_inv : Inv s;
+  j_open : closed s = false;
+  j_up : listening s p = true;
+  j_nosink : forall c x, In c (table s p) -> conns s c = Some x -> sink x = false;
+  j_quiet : tcp s = false \/ o = false;
+  j_thr : exists th, threads s t = Some th /\ tpeer th = p /\ pcJ s th /\
+          exists D, delivered s = d0 ++ D /\ map fst D ++ tmsgs th = msgs0 /\
+                    Forall (fun mc => to_current s (snd mc)) D }.
+
+Lemma conn_send_cases s c m x :
+  conns s c = Some x -> (tcp s = false \/ o = false) ->
+  (alive x = true /\ lclosed x = false /\
+   conn_send s c m o = (if sink x then s else set_delivered s (delivered s ++ [(m, c)]), true)) \/
+  ((alive x = false \/ lclosed x = true) /\ conn_send s c m o = (s, false)).
+Proof.
+  intros Hx Hq. unfold conn_send. rewrite Hx.
+  destruct (lclosed x); [right; auto|].
+  destruct (alive x); [left; auto|].
+  right. split; auto. destruct Hq as [-> | ->]; cbn; auto. now rewrite andb_false_r.
+Qed.
+
+Lemma ext_set_thread s s' th : ext s s' -> ext s (set_thread s' t th).
+Proof. intros [A B]. split; cbn; auto. Qed.
+
+Lemma ext_refl s : ext s s.
+Proof. split; auto. intros c x H. exists x. split; auto. apply same_conn_refl. Qed.
+
+Lemma ext_delivered s v : ext s (set_delivered s v).
+Proof. split; cbn; auto. intros c x H. exists x. split; auto. apply same_conn_refl. Qed.
+
+Lemma ext_of_frame s s' :
+  incn s' = incn s -> (forall c x, conns s c = Some x -> exists x', conns s' c = Some x' /\ same_conn x x') -> ext s s'.
+Proof. intros A B. split; auto. Qed.
+
+Lemma Forall_current_ext s s' (D : list (nat * nat)) :
+  ext s s' -> Forall (fun mc => to_current s (snd mc)) D -> Forall (fun mc => to_current s' (snd mc)) D.
+Proof. intros E H. eapply Forall_impl; [|exact H]. intros a. apply to_current_ext; auto. Qed.
+
+(* the invariant is kept by every step of the thread *)
+Lemma J_step s s' : J s -> thread_step s t o = Some s' -> J s'.
+Proof.
+  intros [I Ho Hu Hns Hq (th & Hth & Hp & Hpc & D & HD & Hm & HF)] H.
+  pose proof (step_thread _ _ _ _ I H) as I'.
+  destruct (thread_step_frame _ _ _ _ I H) as (F1 & F2 & F3 & F4 & F5 & F6 & F7 & F8 & F9).
+  pose proof (ext_of_frame _ _ F3 F7) as E.
+  assert (Q' : tcp s' = false \/ o = false) by (rewrite F4; exact Hq).
+  unfold thread_step in H. rewrite Hth in H. unfold pcJ in Hpc. rewrite Hp in H.
+  destruct (tpc th) eqn:Epc.
+  - (* PLookup *)
+    destruct (table s p) as [|c rest] eqn:Et; inv_some.
+    + constructor; cbn; auto; try congruence; try (rewrite Et; exact Hns).
+      eexists. split; [cbn; now rewrite upd_same|]. cbn. split; auto. split; [exact Hpc|]. eauto.
+    + constructor; cbn; auto; try congruence; try (rewrite Et; exact Hns).
+      eexists. split; [cbn; now rewrite upd_same|]. cbn. split; auto. split.
+      * split; auto. assert (Hin : In c (table s p)) by (rewrite Et; now left).
+        destruct (i_tabc _ I _ _ Hin) as (x & Hx & Hpx & _). exists x. repeat split; auto. eapply Hns; eauto. now left.
+      * eauto.
+  - (* PDial *)
+    rewrite Hu in H. unfold new_conn in H. inv_some.
+    constructor; cbn; auto.
+    + cbn. intros c x Hin Hx. upd_cases.
+      * exfalso. destruct (i_tabc _ I _ _ Hin) as (y & Hy & _). rewrite (i_fresh _ I) in Hy by lia. discriminate.
+      * eapply Hns; eauto.
+    + eexists. split; [cbn; now rewrite upd_same|]. cbn. split; auto. split.
+      * assert (U : usable (set_thread (set_nextc (set_conn s (nextc s) (mkConn p (incn s p) true false false (LFresh t))) (S (nextc s))) t (set_pc th (PIdent (nextc s) outer))) (nextc s)).
+        { eexists. cbn. rewrite upd_same. repeat split. }
+        unfold pcJ. cbn. destruct outer as [c0|].
+        -- destruct Hpc as [A B]. repeat split; auto. eapply known_ext; eauto.
+        -- repeat split; auto.
+      * exists D. cbn. repeat split; auto. eapply Forall_current_ext; eauto.
+  - (* PIdent *)
+    assert (Hid : ident_send s c o = true).
+    { assert (U : usable s c) by (destruct outer; tauto).
+      destruct U as (x & Hx & _ & Ha & Hl & _). unfold ident_send. now rewrite Hx, Hl, Ha. }
+    rewrite Hid in H. inv_some.
+    constructor; cbn; auto.
+    eexists. split; [cbn; now rewrite upd_same|]. cbn. split; auto. split; [exact Hpc|eauto].
+  - (* PReg *)
+    rewrite Ho in H. inv_some.
+    assert (U : usable s c) by (destruct outer; tauto).
+    constructor; cbn; auto.
+    + cbn. intros c0 x Hin Hx. rewrite upd_same in Hin. apply in_app_or in Hin. destruct Hin as [Hin|[<-|[]]].
+      * eapply Hns; eauto.
+      * destruct U as (y & Hy & _ & _ & _ & Hs). congruence.
+    + eexists. split; [cbn; now rewrite upd_same|]. cbn. split; auto. split; [exact Hpc|eauto].
+  - (* PLaunch *)
+    rewrite Ho in H.
+    destruct (conns s c) as [x|] eqn:Hx; [|discriminate]. destruct (loop x) eqn:Hl; try discriminate.
+    destruct (t0 =? t); [|discriminate]. inv_some.
+    assert (U : usable s c) by (destruct outer; tauto).
+    constructor; cbn; auto.
+    + cbn. intros c0 y Hin Hy. upd_cases.
+      * inv_some. cbn. eapply Hns; eauto.
+      * eapply Hns; eauto.
+    + eexists. split; [cbn; now rewrite upd_same|]. cbn. split; auto. split.
+      * unfold pcJ. cbn. destruct outer as [c0|]; cbn.
+        -- destruct Hpc as (A & B & C). repeat split; auto; [eapply usable_ext|eapply known_ext]; eauto.
+        -- destruct Hpc as (A & B). split; auto. apply usable_known. eapply usable_ext; eauto.
+      * exists D. cbn. repeat split; auto. eapply Forall_current_ext; eauto.
+  - (* PMsg *)
+    destruct Hpc as (Hne & (x & Hx & Hpx & Hsx)).
+    destruct (tmsgs th) as [|m rest] eqn:Em; [congruence|].
+    destruct (conn_send_cases s c m x Hx Hq) as [(Ha & Hl & Hs)|(Hd & Hs)]; rewrite Hs in H; try rewrite Hsx in H; inv_some.
+    + (* delivered *)
+      constructor; cbn; auto.
+      eexists. split; [cbn; now rewrite upd_same|]. cbn. split; auto. split.
+      * unfold pcJ. cbn. destruct rest; cbn; [auto|]. split; [discriminate|]. exists x. auto.
+      * exists (D ++ [(m, c)]). cbn. rewrite HD, <- app_assoc. split; auto. split.
+        -- rewrite map_app, <- app_assoc. exact Hm.
+        -- apply Forall_app. split; [eapply Forall_current_ext; eauto|].
+           constructor; auto. cbn. exists x. cbn. destruct (i_env _ I _ _ Hx Ha Hsx) as [Hc _].
+           repeat split; auto. congruence.
+    + constructor; auto.
+      eexists. split; [cbn; now rewrite upd_same|]. cbn. split; auto. split.
+      * unfold pcJ. cbn. rewrite Em. split; [discriminate|]. exists x. auto.
+      * exists D. cbn. rewrite Em. auto.
+  - (* PRetry *)
+    destruct Hpc as (Hne & (x & Hx & Hpx & Ha & Hl & Hsx) & K0).
+    destruct (tmsgs th) as [|m rest] eqn:Em; [congruence|].
+    destruct (conn_send_cases s c' m x Hx Hq) as [(_ & _ & Hs)|([Hd|Hd] & _)]; try congruence.
+    rewrite Hs, Hsx in H. inv_some.
+    constructor; cbn; auto.
+    eexists. split; [cbn; now rewrite upd_same|]. cbn. split; auto. split.
+    + unfold pcJ. cbn. destruct rest; cbn; [auto|]. split; [discriminate|]. exact K0.
+    + exists (D ++ [(m, c')]). cbn. rewrite HD, <- app_assoc. split; auto. split.
+      * rewrite map_app, <- app_assoc. exact Hm.
+      * apply Forall_app. split; [eapply Forall_current_ext; eauto|].
+        constructor; auto. cbn. exists x. cbn. destruct (i_env _ I _ _ Hx Ha Hsx) as [Hc _].
+        repeat split; auto. congruence.
+  - discriminate.
+Qed.
+
+End Resend.
+
+Lemma J_run t p o d0 msgs0 fuel : forall s, J t p o d0 msgs0 s -> J t p o d0 msgs0 (run_thread fuel s t o).
+Proof.
+  induction fuel as [|f IH]; intros s HJ; cbn; auto.
+  destruct (thread_step s t o) as [s'|] eqn:E; auto. apply IH. eapply J_step; eauto.
+Qed.
+
+(* Once the peer listens again, a Send (run as one call, from ANY reachable state of the router:
+   stale entries first in the slice, loops in the middle of notifying, half set-up connections of
+   other Sends ...) reconnects where needed, returns nil and hands every message to the CURRENT
+   incarnation -- provided the router is not closed, no connection registered for the peer was
+   abandoned unclosed by its previous incarnation (F11), and the transport does not swallow
+   writes to dead peers (in-memory transport, or a kernel that refuses: [o = false]). *)
+Theorem resend_after_restart b n acts s p msgs o :
+  run (init b n) acts = Some s ->
+  closed s = false -> listening s p = true ->
+  (forall c x, In c (table s p) -> conns s c = Some x -> sink x = false) ->
+  (tcp s = false \/ o = false) -> msgs <> [] ->
+  exists s' D, send_call s p msgs o = (s', Some ROk) /\
+    delivered s' = delivered s ++ D /\ map fst D = msgs /\
+    Forall (fun mc => exists x, conns s' (snd mc) = Some x /\ cpeer x = p /\ cinc x = incn s' p /\ sink x = false) D.
+Proof.
+  intros R Hc Hl Hns Hq Hne. pose proof (reachable_inv _ _ _ _ R) as I.
+  unfold send_call. cbv beta iota zeta delta [step].
+  set (th := mkThread p msgs (match msgs with [] => PDone RErr | _ => PLookup end)).
+  set (s1 := set_threads s (upd (threads s) (nextt s) (Some th)) (S (nextt s))).
+  assert (I1 : Inv s1) by (eapply (step_spawn s p msgs); eauto).
+  assert (Hth1 : threads s1 (nextt s) = Some th) by (subst s1; cbn; now rewrite upd_same).
+  assert (J1 : J (nextt s) p o (delivered s) msgs s1).
+  { constructor; auto. exists th. split; auto. split; auto. split.
+    - unfold pcJ, th. cbn. destruct msgs; [congruence|]. cbn. discriminate.
+    - exists []. cbn. rewrite app_nil_r. auto. }
+  pose proof (J_run _ _ _ _ _ (send_fuel msgs) _ J1) as J2.
+  destruct (send_returns (send_fuel msgs) s1 (nextt s) th o I1 Hth1) as (r & Hr & _).
+  { unfold mu, send_fuel, th. cbn. destruct msgs; cbn; lia. }
+  set (s2 := run_thread (send_fuel msgs) s1 (nextt s) o) in *.
+  destruct J2 as [_ _ _ _ _ (th2 & Hth2 & _ & Hpc & D & HD & Hm & HF)].
+  unfold result in Hr. rewrite Hth2 in Hr. unfold pcJ in Hpc.
+  destruct (tpc th2) eqn:Epc; try discriminate. destruct Hpc as [Hr0 Hnil].
+  exists s2, D. rewrite Hnil, app_nil_r in Hm. split; [|split; [|split]]; auto.
+  unfold result. rewrite Hth2, Epc, Hr0. reflexivity.
+Qed.
+
+
+(* ---- nothing listens: the Send fails ------------------------------------------------------ *)
+
+Section Failing.
+Variables (t p : nat) (o : bool) (d0 : list (nat * nat)).
+
+Definition pcK (s : state) (th : thread) : Prop :=
+  match tpc th with
+  | PLookup => tmsgs th <> []
+  | PDial _ => True
+  | PMsg c => tmsgs th <> [] /\ In c (table s p)
+  | PDone r => r = RErr
+  | _ => False
+  end.
+
+Record K (s : state) : Prop := {
+  k_inv : Inv s;
+  k_down : listening s p = false;
+  k_nosink : forall c x, In c (table s p) -> conns s c = Some x -> sink x = false;
+  k_quiet : table s p = [] \/ tcp s = false \/ o = false;
+  k_deliv : delivered s = d0;
+  k_thr : exists th, threads s t = Some th /\ tpeer th = p /\ pcK s th }.
+
+Lemma K_step s s' : K s -> thread_step s t o = Some s' -> K s'.
+Proof.
+  intros [I Hd Hns Hq Hdel (th & Hth & Hp & Hpc)] H.
+  pose proof (step_thread _ _ _ _ I H) as I'.
+  unfold thread_step in H. rewrite Hth in H. unfold pcK in Hpc. rewrite Hp in H.
+  destruct (tpc th) eqn:Epc; try contradiction.
+  - destruct (table s p) as [|c rest] eqn:Et; inv_some.
+    + constructor; cbn; auto; try (rewrite Et; auto).
+      eexists. split; [now rewrite upd_same|]. split; auto. unfold pcK. cbn. auto.
+    + constructor; cbn; auto; try (rewrite Et; auto).
+      eexists. split; [now rewrite upd_same|]. split; auto. unfold pcK. cbn. rewrite Et. split; auto. now left.
+  - rewrite Hd in H. inv_some. constructor; cbn; auto.
+    eexists. split; [now rewrite upd_same|]. split; auto. unfold pcK. cbn. auto.
+  - destruct Hpc as [Hne Hin].
+    destruct (tmsgs th) as [|m rest] eqn:Em; [congruence|].
+    destruct (i_tabc _ I _ _ Hin) as (x & Hx & Hpx & _).
+    assert (Hsk : sink x = false) by (eapply Hns; eauto).
+    assert (Hal : alive x = false).
+    { destruct (alive x) eqn:Ha; auto. destruct (i_env _ I _ _ Hx Ha Hsk) as [_ L]. congruence. }
+    assert (Hq' : tcp s = false \/ o = false).
+    { destruct Hq as [Hq|Hq]; auto. rewrite Hq in Hin. destruct Hin. }
+    destruct (conn_send_cases o s c m x Hx Hq') as [(Ha & _)|(_ & Hs)]; [congruence|].
+    rewrite Hs in H. inv_some. constructor; cbn; auto.
+    eexists. split; [now rewrite upd_same|]. split; auto. unfold pcK. cbn. auto.
+  - discriminate.
+Qed.
+
+Lemma K_run fuel : forall s, K s -> K (run_thread fuel s t o).
+Proof.
+  induction fuel as [|f IH]; intros s HK; cbn; auto.
+  destruct (thread_step s t o) as [s'|] eqn:E; auto. apply IH. eapply K_step; eauto.
+Qed.
+
+End Failing.
+
+(* A Send (as one call, from any reachable state) towards a peer where nothing listens returns an
+   error and delivers nothing, as long as no registered connection was abandoned unclosed (F11) and
+   either no connection to that peer is registered, or the transport refuses writes to dead
+   peers (in-memory transport / the kernel does not buffer: [o = false]). *)
+Theorem send_fails_when_nothing_listens b n acts s p msgs o :
+  run (init b n) acts = Some s -> listening s p = false ->
+  (forall c x, In c (table s p) -> conns s c = Some x -> sink x = false) ->
+  (table s p = [] \/ tcp s = false \/ o = false) ->
+  exists s', send_call s p msgs o = (s', Some RErr) /\ delivered s' = delivered s.
+Proof.
+  intros R Hl Hns Hq. pose proof (reachable_inv _ _ _ _ R) as I.
+  unfold send_call. cbv beta iota zeta delta [step].
+  set (th := mkThread p msgs (match msgs with [] => PDone RErr | _ => PLookup end)).
+  set (s1 := set_threads s (upd (threads s) (nextt s) (Some th)) (S (nextt s))).
+  assert (I1 : Inv s1) by (eapply (step_spawn s p msgs); eauto).
+  assert (Hth1 : threads s1 (nextt s) = Some th) by (subst s1; cbn; now rewrite upd_same).
+  assert (K1 : K (nextt s) p o (delivered s) s1).
+  { constructor; auto. exists th. split; auto. split; auto.
+    unfold pcK, th. cbn. destruct msgs; cbn; auto. discriminate. }
+  pose proof (K_run _ _ _ _ (send_fuel msgs) _ K1) as K2.
+  destruct (send_returns (send_fuel msgs) s1 (nextt s) th o I1 Hth1) as (r & Hr & _).
+  { unfold mu, send_fuel, th. cbn. destruct msgs; cbn; lia. }
+  set (s2 := run_thread (send_fuel msgs) s1 (nextt s) o) in *.
+  destruct K2 as [_ _ _ _ Hdel (th2 & Hth2 & _ & Hpc)].
+  unfold result in Hr. rewrite Hth2 in Hr. unfold pcK in Hpc.
+  destruct (tpc th2) eqn:Epc; try discriminate.
+  exists s2. split; auto. unfold result. now rewrite Hth2, Epc, Hpc.
+Qed.
+
+(* ---- the entry points ----------------------------------------------------------------------- *)
+
+Lemma send_raw_fixed_propagates r : send_raw true r = r.
+Proof. reflexivity. Qed.
+
+Lemma send_raw_pinned_drops : send_raw false RErr = ROk.
+Proof. reflexivity. Qed.
+
+Lemma tree_node_send_propagates r : send_to_tree_node r = r.
+Proof. reflexivity. Qed.
+
+Lemma tn_send_to_propagates a b : tn_send_to a b RErr = RErr.
+Proof. destruct a, b; reflexivity. Qed.
+
+Section Wrappers.
+Variable St : Type.
+Variable snd_ : St -> nat -> St * res.
+
+(* the state in which the k-th destination is tried, for the all-destinations wrappers *)
+Fixpoint state_before (s : St) (dests : list nat) (k : nat) : St :=
+  match k, dests with
+  | S k', d :: r => state_before (fst (snd_ s d)) r k'
+  | _, _ => s
+  end.
+
+Lemma multicast_reports s dests k d :
+  nth_error dests k = Some d -> snd (snd_ (state_before s dests k) d) = RErr ->
+  In d (snd (multicast St snd_ s dests)).
+Proof.
+  revert s k; induction dests as [|d0 r IH]; intros s [|k] Hn He; cbn in *; try discriminate.
+  - inv_some. destruct (snd_ s d) as [s' x] eqn:E. cbn in He. subst x.
+    destruct (multicast St snd_ s' r). cbn. now left.
+  - destruct (snd_ s d0) as [s' x] eqn:E. cbn in He.
+    specialize (IH s' k Hn He). destruct (multicast St snd_ s' r) as [s'' errs]. cbn in *.
+    destruct x; auto. now right.
+Qed.
+
+Lemma multicast_only_failures s dests d :
+  In d (snd (multicast St snd_ s dests)) ->
+  exists k, nth_error dests k = Some d /\ snd (snd_ (state_before s dests k) d) = RErr.
+Proof.
+  revert s; induction dests as [|d0 r IH]; intros s H; [destruct H|].
+  cbn [multicast] in H. destruct (snd_ s d0) as [s' x] eqn:E.
+  destruct (multicast St snd_ s' r) as [s'' errs] eqn:Em. cbn [snd] in H.
+  assert (Hr : In d errs -> exists k, nth_error (d0 :: r) k = Some d /\ snd (snd_ (state_before s (d0 :: r) k) d) = RErr).
+  { intros Hin. destruct (IH s') as (k & A & B); [now rewrite Em|]. exists (S k). cbn [nth_error state_before].
+    rewrite E. auto. }
+  destruct x; [apply Hr; exact H|].
+  destruct H as [<-|H]; [|apply Hr; exact H]. exists 0. cbn [nth_error state_before]. rewrite E. auto.
+Qed.
+
+Lemma send_to_children_reports s dests k d :
+  nth_error dests k = Some d -> snd (snd_ (state_before s dests k) d) = RErr ->
+  (forall j d', j < k -> nth_error dests j = Some d' -> snd (snd_ (state_before s dests j) d') = ROk) ->
+  snd (send_to_children St snd_ s dests) = RErr.
+Proof.
+  revert s k; induction dests as [|d0 r IH]; intros s [|k] Hn He Hok; cbn in *; try discriminate.
+  - inv_some. destruct (snd_ s d) as [s' x]. cbn in He. now subst.
+  - destruct (snd_ s d0) as [s' x] eqn:E. destruct x; auto.
+    apply (IH s' k); auto. intros j d' Hj Hd'. specialize (Hok (S j) d' ltac:(lia) Hd'). cbn in Hok.
+    rewrite ?E in Hok. exact Hok.
+Qed.
+
+Lemma send_to_children_ok_all s dests :
+  snd (send_to_children St snd_ s dests) = ROk ->
+  forall k d, nth_error dests k = Some d -> snd (snd_ (state_before s dests k) d) = ROk.
+Proof.
+  revert s; induction dests as [|d0 r IH]; intros s H [|k] d Hn; cbn in *; try discriminate.
+  - inv_some. destruct (snd_ s d) as [s' x]. destruct x; auto.
+  - destruct (snd_ s d0) as [s' x] eqn:E. destruct x; [|discriminate]. now apply IH.
+Qed.
+
+Lemma send_to_parent_propagates s q : send_to_parent St snd_ s (Some q) = snd_ s q.
+Proof. reflexivity. Qed.
+
+Lemma broadcast_reports s self nodes k d :
+  nth_error (filter (fun d => negb (d =? self)) nodes) k = Some d ->
+  snd (snd_ (state_before s (filter (fun d => negb (d =? self)) nodes) k) d) = RErr ->
+  In d (snd (broadcast St snd_ s self nodes)).
+Proof. apply multicast_reports. Qed.
+
+End Wrappers.
+
+(* ---- a crash of one peer does not touch anything that concerns another peer ------------------- *)
+
+Theorem crash_footprint s p s' :
+  step s (ACrash p) = Some s' ->
+  table s' = table s /\ threads s' = threads s /\ closed s' = closed s /\ calls s' = calls s /\
+  delivered s' = delivered s /\ dispatched s' = dispatched s /\
+  (forall q, q <> p -> listening s' q = listening s q) /\ incn s' = incn s /\
+  (forall c x, conns s c = Some x -> cpeer x <> p -> conns s' c = Some x).
+Proof.
+  intros H. cbv beta iota zeta delta [step] in H. inv_some. cbn. repeat split; auto.
+  - intros q Hq. now rewrite upd_other.
+  - intros c x Hx Hp. rewrite Hx. apply Nat.eqb_neq in Hp. now rewrite Hp.
+Qed.
+
+(* ---- refutations for the pinned code ------------------------------------------------------------ *)
+
+(* F11 seen from the survivor: peer 0 is talked to, is shut down while one of its goroutines still
+   dials us (the connection is accepted here and dropped, not closed, there), the death of the
+   first connection is noticed and notified, the peer comes back -- and a Send returns nil
+   without delivering anything to anybody. *)
+Definition abandoned_history : list action :=
+  [ASpawn 0 [1]; AStep 0 false; AStep 0 false; AStep 0 false; AStep 0 false; AStep 0 false; AStep 0 false;
+   ACrash 0; AAcceptClosing false 0; ALaunchInc 1;
+   ARecvErr 0 EEOF; ATrigger 0; AExit 0; ARestart 0].
+
+Definition st_of (o : option state) : state := match o with Some s => s | None => init false 0 end.
+
+Theorem resend_abandoned_refuted :
+  exists s s', run (init false 1) abandoned_history = Some s /\
+    closed s = false /\ listening s 0 = true /\ table s 0 = [1] /\
+    send_call s 0 [2] false = (s', Some ROk) /\ delivered s' = delivered s.
+Proof.
+  exists (st_of (run (init false 1) abandoned_history)).
+  exists (fst (send_call (st_of (run (init false 1) abandoned_history)) 0 [2] false)).
+  split; [vm_compute; reflexivity|].
+  split; [vm_compute; reflexivity|].
+  split; [vm_compute; reflexivity|].
+  split; [vm_compute; reflexivity|].
+  split; [|vm_compute; reflexivity].
+  rewrite (surjective_pairing (send_call _ 0 [2] false)) at 1. f_equal; vm_compute; reflexivity.
+Qed.
+
+(* the same history with the repaired peer (it closes the refused connection): the Send reconnects
+   and delivers to the new incarnation *)
+Example resend_repaired_example :
+  exists s s', run (init false 1)
+                 [ASpawn 0 [1]; AStep 0 false; AStep 0 false; AStep 0 false; AStep 0 false; AStep 0 false; AStep 0 false;
+                  ACrash 0; AAcceptClosing true 0; ALaunchInc 1;
+                  ARecvErr 0 EEOF; ATrigger 0; AExit 0; ARestart 0] = Some s /\
+    send_call s 0 [2] false = (s', Some ROk) /\ delivered s' = delivered s ++ [(2, 2)].
+Proof.
+  eexists. eexists. split; [vm_compute; reflexivity|]. split; vm_compute; reflexivity.
+Qed.
+
+(* ---- every entry point over the router's result ------------------------------------------------- *)
+
+Definition opt_res (r : option res) : res := match r with Some x => x | None => RErr end.
+
+Theorem entry_points_report b n acts s p msgs o :
+  run (init b n) acts = Some s -> listening s p = false ->
+  (forall c x, In c (table s p) -> conns s c = Some x -> sink x = false) ->
+  (table s p = [] \/ tcp s = false \/ o = false) ->
+  let r := opt_res (snd (send_call s p msgs o)) in
+  let snd_ := fun (st : unit) (q : nat) => (st, r) in
+  r = RErr /\
+  send_raw true r = RErr /\
+  send_to_tree_node r = RErr /\
+  tn_send_to false false r = RErr /\
+  snd (send_to_parent unit snd_ tt (Some p)) = RErr /\
+  snd (send_to_children unit snd_ tt [p]) = RErr /\
+  snd (multicast unit snd_ tt [p]) = [p] /\
+  (forall self, self <> p -> snd (broadcast unit snd_ tt self [self; p]) = [p]).
+Proof.
+  intros R Hl Hns Hq r snd_.
+  destruct (send_fails_when_nothing_listens _ _ _ _ _ msgs o R Hl Hns Hq) as (s' & Hs & _).
+  assert (Hr : r = RErr) by (unfold r; rewrite Hs; reflexivity).
+  unfold snd_. rewrite Hr. cbn. repeat split; auto.
+  intros self Hne. unfold broadcast. cbn. rewrite Nat.eqb_refl. cbn.
+  apply Nat.eqb_neq in Hne. rewrite Nat.eqb_sym, Hne. reflexivity.
+Qed.
+
+(* F10: the pinned Context.SendRaw reports success where the router reported the failure *)
+Theorem sendraw_refuted :
+  exists s r, run (init false 0) [ACrash 0] = Some s /\ listening s 0 = false /\ table s 0 = [] /\
+              snd (send_call s 0 [1] false) = Some r /\ r = RErr /\ send_raw false r = ROk.
+Proof.
+  exists (st_of (run (init false 0) [ACrash 0])), RErr.
+  repeat split; vm_compute; reflexivity.
+Qed.
+
+(* ---- the hypotheses of the implications are satisfiable ------------------------------------------- *)
+
+Definition repaired_history : list action :=
+  [ASpawn 0 [1]; AStep 0 false; AStep 0 false; AStep 0 false; AStep 0 false; AStep 0 false; AStep 0 false;
+   ACrash 0; AAcceptClosing true 0; ALaunchInc 1;
+   ARecvErr 0 EEOF; ATrigger 0; AExit 0; ARestart 0].
+
+Example resend_hypotheses_example :
+  exists s, run (init false 1) repaired_history = Some s /\ closed s = false /\ listening s 0 = true /\
+            (forall c x, In c (table s 0) -> conns s c = Some x -> sink x = false) /\ tcp s = false.
+Proof.
+  exists (st_of (run (init false 1) repaired_history)).
+  split; [vm_compute; reflexivity|]. split; [vm_compute; reflexivity|]. split; [vm_compute; reflexivity|].
+  split; [|vm_compute; reflexivity].
+  intros c x Hin Hx. assert (Ht : table (st_of (run (init false 1) repaired_history)) 0 = [1]) by (vm_compute; reflexivity).
+  rewrite Ht in Hin. destruct Hin as [<-|[]]. vm_compute in Hx. inversion Hx. reflexivity.
+Qed.
+
+Example table_clean_example :
+  exists s x, run (init false 1) repaired_history = Some s /\ conns s 0 = Some x /\ loop x = LExited true /\ nh s = 1.
+Proof.
+  exists (st_of (run (init false 1) repaired_history)). eexists.
+  split; [vm_compute; reflexivity|]. split; [vm_compute; reflexivity|]. split; vm_compute; reflexivity.
+Qed.
+
+Definition crashed_history : list action :=
+  [ASpawn 0 [1]; AStep 0 false; AStep 0 false; AStep 0 false; AStep 0 false; AStep 0 false; AStep 0 false; ACrash 0].
+
+Example send_fails_hypotheses_example :
+  exists s, run (init false 1) crashed_history = Some s /\
+            listening s 0 = false /\ table s 0 = [0] /\ tcp s = false /\
+            (forall c x, In c (table s 0) -> conns s c = Some x -> sink x = false).
+Proof.
+  exists (st_of (run (init false 1) crashed_history)). split; [vm_compute; reflexivity|].
+  split; [vm_compute; reflexivity|]. split; [vm_compute; reflexivity|]. split; [vm_compute; reflexivity|].
+  intros c x Hin Hx.
+  assert (Ht : table (st_of (run (init false 1) crashed_history)) 0 = [0]) by (vm_compute; reflexivity).
+  rewrite Ht in Hin. destruct Hin as [<-|[]]. vm_compute in Hx. inversion Hx. reflexivity.
+Qed.
+
+Definition stale_history : list action := [AAccept 3; ALaunchInc 0; ACrash 3].
+
+Example stale_entry_example :
+  exists s x, run (init true 2) stale_history = Some s /\
+              In 0 (table s 3) /\ conns s 0 = Some x /\ loop x = LRun /\ alive x = false.
+Proof.
+  exists (st_of (run (init true 2) stale_history)). eexists. split; [vm_compute; reflexivity|].
+  split; [vm_compute; auto|]. split; [vm_compute; reflexivity|]. split; vm_compute; reflexivity.
+Qed.
+
+Theorem classifier_total_all c :
+  (classify c = Drop <-> c = ETimeout \/ c = EClosed \/ c = EEOF \/ c = EUnknown) /\
+  (classify c = Continue <-> c = ECanceled \/ c = EOther) /\
+  (classify c = Drop \/ classify c = Continue).
+Proof. exact (conj (classify_drop_iff c) (conj (classify_continue_iff c) (classify_total c))). Qed.
+
+Theorem raw_recoverable_iff e :
+  handle_error e <> EOther /\
+  (classify (handle_error e) = Continue <->
+   has_use_of_closed e = false /\ has_broken_pipe e = false /\ has_canceled e = true).
+Proof. exact (conj (handle_error_never_other e) (raw_continue_iff e)). Qed.
